@@ -128,6 +128,19 @@ func processCalcJcc(env *Pass1, operands []ast.Exp, instName string) {
 			if env.BitMode != cpu.MODE_16BIT {
 				// 32 ビットモードでは near 形式 (rel32) として数えている
 				ocode += ",near"
+			} else if instName != "CALL" {
+				// 16 ビットモードではまず short 形式 (2 バイト) と仮定する。届かなかった分岐は codegen が
+				// 番号で報告し、frontend がその分岐を near 形式にしてやり直す。
+				id := len(env.Client.GetOcodes())
+				if env.NearBranches[id] {
+					estimatedSize = 3 // JMP rel16
+					if instName != "JMP" {
+						estimatedSize = 4 // Jcc rel16
+					}
+					ocode += ",near"
+				} else {
+					ocode += fmt.Sprintf(",short#%d", id)
+				}
 			}
 		} else {
 			// ケース 3b: ラベルでない ImmExp (例: '$' が NumberExp に評価された場合や予期しない Factor)
